@@ -21,7 +21,7 @@ def f12_tree():
 
 def run(tier):
     C = Check('C03', tier)
-    C.prove('Properties/C03.v', bridges={'Properties/C03T.v': []})
+    C.prove('Properties/C03.v', bridges={'Properties/C03T.v': [], 'Properties/C03W.v': []})
     C.cov['tie']['protocol_code_generator + generated code'] = ('correspondence-only: real generator + generated deserializers executed; reference semantics '
                                                                'Model/Elab.v + Model/Deser.v over the reader model R')
     quick = tier == 'quick'
@@ -55,19 +55,32 @@ def run(tier):
         os.makedirs(os.path.dirname(fn), exist_ok=True)
         acc = [e for e in entries + [f4] if e['result'].get('accepted')]
         with open(fn, 'w') as f:
-            f.write("From EO Require Import Prelude.Py Model.Spec Model.Elab Model.GenHarnessB.\nOpen Scope string_scope.\nOpen Scope list_scope.\n")
+            f.write("From EO Require Import Prelude.Py Model.Spec Model.Elab Model.GenHarnessB Model.NonDegen.\nOpen Scope string_scope.\nOpen Scope list_scope.\n")
             for k, e in enumerate(acc):
-                f.write(f"Definition t{k} : list rfile := {coq_tree(e['tree'])}.\nEval vm_compute in (tree_progress t{k}).\n")
+                f.write(f"Definition t{k} : list rfile := {coq_tree(e['tree'])}.\nEval vm_compute in (tree_domain t{k}, tree_progress t{k}).\n")
         rc, out = sh(['bash', '-c', f'ulimit -s unlimited 2>/dev/null; exec timeout 600 coqc -Q {COQ} EO -w -all {fn}'], cwd=COQ, timeout=700)
         chunks = re.split(r'\n\s*=\s*', '\n' + out)[1:]
         if rc == 0 and len(chunks) == len(acc):
             for e, ch in zip(acc, chunks):
+                m = re.match(r'\(\s*Some\s*\((true|false),\s*(true|false),\s*(true|false),\s*(true|false)\)', ch)
+                e['domain'] = tuple(x == 'true' for x in m.groups()) if m else None
                 for n, a, b in re.findall(r'\("([^"]*)",\s*(true|false),\s*(true|false)\)', ch):
                     prog[(id(e), n)] = (a == 'true', b == 'true')
         else:
             C.broken.append(dict(kind='correspondence', stream='progress', msg=out[-500:]))
     except Exception as ex:
         C.broken.append(dict(kind='correspondence', stream='progress', msg=str(ex)[-300:]))
+    # C03_accepted_wf: on every accepted tree inside its hypotheses wf_pkg must evaluate to true (it is a theorem; a false here means the
+    # evaluated model and the proved model differ); outside them the tree is counted, by the hypothesis that fails
+    dom = [e.get('domain') for e in acc] if 'acc' in dir() else []
+    C.cov['acceptance_implies_wf_theorem'] = dict(accepted_trees=len(dom), in_domain=sum(1 for d in dom if d and all(d[:3])),
+                                                  degenerate=sum(1 for d in dom if d and not d[0]), recursive=sum(1 for d in dom if d and not d[1]),
+                                                  optional_length_referenced=sum(1 for d in dom if d and not d[2]),
+                                                  wf=sum(1 for d in dom if d and d[3]))
+    for e in (acc if 'acc' in dir() else []):
+        d = e.get('domain')
+        if d is None or (all(d[:3]) and not d[3]):
+            C.broken.append(dict(kind='correspondence', stream='domain', msg=f"tree {e['name']}: tree_domain = {d}"))
     C.cov['termination_theorem_applies'] = dict(classes=len(prog), covered_nonchunked=sum(1 for v in prog.values() if v[0]), covered_chunked=sum(1 for v in prog.values() if v[1]))
     # ---- property oracle on the implementation: terminates, only the documented ValueError, position inside the data
     ndeser = nerr = ntrunc = 0
